@@ -265,6 +265,15 @@ def be_bytes(v):
 
 
 # --------------------------------------------------------------------------------- shapes per type
+def pick(shapes, n):
+    """n shapes spread evenly over the list (first and last included), so that every value of the slowest-varying
+    dimension (e.g. the four IPSECKEY gateway kinds) is represented"""
+    if len(shapes) <= n:
+        return list(shapes)
+    idx = sorted({round(i * (len(shapes) - 1) / (n - 1)) for i in range(n)})
+    return [shapes[i] for i in idx]
+
+
 def shapes_for(t, tier):
     """list of shape dicts for schema type t"""
     thorough = True      # the full shape set costs ~35 s sequentially: used in both tiers
